@@ -67,9 +67,24 @@ def doField (a : Json) : Except String Json := do
     | _ => throw s!"unknown field {field}"
   pure <| J.obj [("model", J.bool m), ("spec", J.bool s)]
 
+/-- `C01.attrs {attrs, policies, cfgs:[{fc,subset,logMode}], all, logging}`: `ClusterInfo.MatchAttributes` -/
+def doAttrs (a : Json) : Except String Json := do
+  let attrs ← decodeAttrs (← J.getObj a "attrs")
+  let ps ← decodePolicies a "policies"
+  let cfgs ← (← J.getArr a "cfgs").toList.mapM fun c => do
+    pure ((← J.getHex c "fc"), (← J.getHexList c "subset"), (← J.getHex c "logMode"))
+  if cfgs.length ≠ ps.length then throw "cfgs/policies length mismatch"
+  let pcs : List PolicyCfg := (ps.zip cfgs).map fun (r, (fc, sub, lm)) =>
+    { rules := r, flowControlSchemaName := fc, upstreamSubset := sub, logMode := lm }
+  match matchAttributes attrs pcs (← J.getHexList a "all") (← J.getHex a "logging") with
+  | none => pure (J.obj [("matched", J.bool false)])
+  | some pk => pure (J.obj [("matched", J.bool true), ("policy", J.nat pk.policy), ("fc", J.hex pk.flowControlName),
+                            ("upstreams", J.hexList pk.upstreams), ("log", J.bool pk.enableLog)])
+
 def handle (m : String) (a : Json) : Option (Except String Json) :=
   match m with
   | "match" => some (doMatch a)
+  | "attrs" => some (doAttrs a)
   | "field" => some (doField a)
   | _ => none
 
